@@ -67,6 +67,10 @@ type Net struct {
 	lastAns   map[string][]string
 	dnsFail   map[string]bool
 	Lookups   int
+
+	// Observers, called on the goroutine of the caller (the task).
+	OnLookup  func(host string, ips []net.IP, failed bool)
+	OnRequest func(nr *NetRequest, received bool)
 }
 
 func NewNet(clock *Clock) *Net {
@@ -93,6 +97,18 @@ func (n *Net) SetDNSFail(host string, fail bool) {
 
 // LookupIPAddr implements the dispatcher's resolver seam.
 func (n *Net) LookupIPAddr(ctx context.Context, host string) ([]net.IPAddr, error) {
+	out, err := n.lookup(host)
+	if n.OnLookup != nil {
+		var ips []net.IP
+		for _, a := range out {
+			ips = append(ips, a.IP)
+		}
+		n.OnLookup(strings.ToLower(strings.TrimSuffix(host, ".")), ips, err != nil)
+	}
+	return out, err
+}
+
+func (n *Net) lookup(host string) ([]net.IPAddr, error) {
 	n.mu.Lock()
 	defer n.mu.Unlock()
 	n.Lookups++
@@ -191,6 +207,9 @@ func (n *Net) RoundTrip(req *http.Request) (*http.Response, error) {
 		n.Log = append(n.Log, nr)
 	}
 	n.mu.Unlock()
+	if n.OnRequest != nil {
+		n.OnRequest(nr, act.Kind != "refused" && act.Kind != "dnsfail")
+	}
 
 	if act.Delay > 0 {
 		n.clock.Advance(act.Delay)
